@@ -63,6 +63,12 @@ def gen(ctx, tier, rng):
             if n % 10 == 0:
                 L.append("bin2b64 200 %s %d" % (hexs(b), v))
                 L.append("b64len %d %d" % (n, v))
+    # documented length for LARGE inputs (pure size arithmetic, no buffer needed): around every power of two up to 2^61 and around 3 * 2^k (where the text length crosses 2^(k+2))
+    big = sorted({(1 << k) + d for k in range(8, 62) for d in (-2, -1, 0, 1, 2, 3)} | {3 * (1 << k) + d for k in range(8, 60) for d in (-3, -2, -1, 0, 1, 2, 3)} |
+                 {rng.randrange(1 << 31, 1 << 61) for _ in range(60)})
+    for n in big:
+        for v in (1, 3, 5, 7):
+            L.append("b64len %d %d" % (n, v))
     # decoders: valid encodings x capacities x ignore sets x end pointer, plus mutations
     for n in range(0, 71):
         reps = 3 if (full or n < 12) else 1
